@@ -1116,6 +1116,60 @@ func exhaustive(o *obs, w *world) {
 }
 
 // shortCase: chains of 1..6 blocks; round trip after every save; then every prune range and rewind target.
+// oldFormat: a database written before the per-height validator-set records existed (states written by the release
+// before c7377d2 hold only the hash-keyed records) must still load at the head with the right MEMBERS and POWERS in the
+// last, current and next sets. (Priorities and the proposer are what that format could not keep: not judged here.)
+func oldFormat(o *obs, w *world) {
+	if w.mem == nil {
+		return
+	}
+	run := o.c.Run
+	db := cloneDB(w.mem)
+	var del [][]byte
+	it := db.NewIterator([]byte("ConsensusValSetAtHeight"), nil)
+	for it.Next() {
+		del = append(del, append([]byte(nil), it.Key()...))
+	}
+	it.Release()
+	if len(del) == 0 {
+		return
+	}
+	for _, k := range del {
+		db.Delete(k)
+	}
+	h := w.state.LastBlockHeight
+	saved := w.saved[h]
+	var loaded cstate.LatestBlockState
+	if !o.guarded("load-old-format", func() { loaded = cstate.NewStore(db).Load() }) {
+		return
+	}
+	run.Count("old_format_loads", 1)
+	if loaded.IsEmpty() {
+		o.violation("old-format:state-missing", fmt.Sprintf("without the per-height validator-set records Load() returns the empty state for height %d", h), nil)
+		return
+	}
+	ls := snapState(&loaded)
+	members := func(s setSnap) string {
+		out := ""
+		for _, v := range s.Vals {
+			out += fmt.Sprintf("%x:%d ", v.Addr[:4], v.Power)
+		}
+		return out
+	}
+	for _, x := range []struct {
+		name          string
+		saved, loaded setSnap
+	}{{"last", saved.Last, ls.Last}, {"current", saved.Cur, ls.Cur}, {"next", saved.Next, ls.Next}} {
+		if members(x.saved) != members(x.loaded) {
+			o.violation("old-format:members-after-reload:"+x.name, fmt.Sprintf("a database without per-height validator-set records loads, at height %d, a %s validator set with other members or powers: saved [%s], loaded [%s]", h, x.name, members(x.saved), members(x.loaded)), nil)
+			return
+		}
+	}
+	if members(saved.Cur) != members(saved.Next) {
+		run.Count("old_format_loads_with_a_set_change_in_flight", 1)
+	}
+}
+
 func shortCase(c *core.Case) {
 	r := c.R
 	class := classes[c.I%len(classes)]
@@ -1131,6 +1185,7 @@ func shortCase(c *core.Case) {
 	if o.bad || !runChain(o, w, L, true) {
 		return
 	}
+	oldFormat(o, w)
 	exhaustive(o, w)
 	account(c.Run, c, w, sc, "short")
 	if c.I < 2 {
@@ -1367,6 +1422,7 @@ func Main() {
 	r.Cases("atomic", r.N(120, 4000), core.Opts{Workers: 16}, atomicCase)
 	if atomic.LoadInt64(&violationsRaised) == 0 { // a chain stops at its first violation, so floors say nothing then
 		r.Floor("saves_observed", 300)
+		r.Floor("old_format_loads_with_a_set_change_in_flight", 30)
 		r.Floor("restarts_with_a_genesis_document_of_other_params", 1000)
 		r.Floor("loads", 200)
 		r.Floor("static_heights_with_priority_moves", 100)
